@@ -4,6 +4,7 @@ package main
 // implementation (spec overlay), label by label.
 
 import (
+	"crypto/sha1"
 	"fmt"
 	"sort"
 	"strings"
@@ -12,6 +13,7 @@ import (
 )
 
 type equivResult struct {
+	Finger  string // label and hash of the code-side term of the first mismatch
 	OK      bool
 	Cases   int
 	Labels  int
@@ -39,6 +41,10 @@ func compareSummaries(p *Program, code, spec *Summary) *equivResult {
 		ok, m, cases := equivTerms(a, b, maxAtoms)
 		r.Cases += cases
 		if !ok {
+			if r.Finger == "" {
+				h := sha1.Sum([]byte(m.A))
+				r.Finger = fmt.Sprintf("%s=%x", label, h[:4])
+			}
 			fail("%s differs: %s", label, m)
 		}
 	}
